@@ -79,17 +79,22 @@ class Tree:
                 psi = state.reshape([2] * n)
                 idx1 = [slice(None)] * n
                 idx1[wire] = 1
-                p1 = float(np.sum(np.abs(psi[tuple(idx1)]) ** 2))
-                p1 = min(max(p1, 0.0), 1.0)
+                idx0 = [slice(None)] * n
+                idx0[wire] = 0
+                # both outcome weights are summed directly (1 - p1 loses ten digits when p1 is close to 1)
+                w1 = float(np.sum(np.abs(psi[tuple(idx1)]) ** 2))
+                w0 = float(np.sum(np.abs(psi[tuple(idx0)]) ** 2))
+                p1 = w1 / (w0 + w1)
                 self.nodes[h] = (state, p1, wire)
-                for outcome, pr in ((0, 1 - p1), (1, p1)):
+                for outcome, pr in ((0, w0 / (w0 + w1)), (1, p1)):
                     if pr <= 1e-13:
                         continue
                     sel = [slice(None)] * n
                     sel[wire] = 1 - outcome
                     new = psi.copy()
                     new[tuple(sel)] = 0
-                    new = new.reshape(-1) / np.sqrt(pr)
+                    new = new.reshape(-1)
+                    new = new / np.linalg.norm(new)
                     if opt.get("reset") and outcome == 1:
                         new = sim.apply_matrix(new, sim.X, [wire], n)
                     ps = opt.get("postselect")
